@@ -31,17 +31,19 @@ from sa.report import Report
 
 
 def run(repo: Repo, rep: Report, tier: str) -> None:
-    cv.rule_hook_pairs(repo, rep, "R16.5")
-    cv.rule_rename_plumbing(repo, rep, "R16.6")
-    cv.rule_unlisted_field_keeps_its_name(repo, rep, "R16.11")
-    cv.rule_recursive_registration(repo, rep, "R16.7")
-    cv.rule_field_types_resolved(repo, rep, "R16.13")
-    rule_meta_maps_over_mro(repo, rep, "R16.14")
-    rule_variant_errors_keep_detail(repo, rep, "R16.15")
-    rule_hooks_pass_values_through(repo, rep, "R16.16")
-    rule_class_memo(repo, rep, "R16.9")
-    rule_strip_descends(repo, rep, "R16.10")
-    rule_memo_by_identity(repo, rep, "R16.12")
+    from sa.report import guarded as _guarded
+
+    _guarded(rep, cv.rule_hook_pairs, repo, rep, "R16.5")
+    _guarded(rep, cv.rule_rename_plumbing, repo, rep, "R16.6")
+    _guarded(rep, cv.rule_unlisted_field_keeps_its_name, repo, rep, "R16.11")
+    _guarded(rep, cv.rule_recursive_registration, repo, rep, "R16.7")
+    _guarded(rep, cv.rule_field_types_resolved, repo, rep, "R16.13")
+    _guarded(rep, rule_meta_maps_over_mro, repo, rep, "R16.14")
+    _guarded(rep, rule_variant_errors_keep_detail, repo, rep, "R16.15")
+    _guarded(rep, rule_hooks_pass_values_through, repo, rep, "R16.16")
+    _guarded(rep, rule_class_memo, repo, rep, "R16.9")
+    _guarded(rep, rule_strip_descends, repo, rep, "R16.10")
+    _guarded(rep, rule_memo_by_identity, repo, rep, "R16.12")
     conv = repo.module("core.cattrs_converter")
     # ---------------------------------------------------------------- R16.1
     sfd = conv.functions.get("structure_from_dict")
